@@ -23,9 +23,10 @@ let () =
           let f = try List.assoc suite suites with Not_found -> failwith ("unknown suite " ^ suite) in
           (match (try Ok (f input impl) with e -> Error (Printexc.to_string e)) with
            | Ok v ->
-             Printf.printf "%s %s agree=%d oracle=%d kf=%s nontrivial=%d class=%s model=%s\n"
+             let why = String.map (fun c -> if c = ' ' || c = '\n' || c = '\t' then '_' else c) v.Verdict.why in
+             Printf.printf "%s %s agree=%d oracle=%d kf=%s nontrivial=%d class=%s why=%s model=%s\n"
                suite id (if v.Verdict.agree then 1 else 0) (if v.Verdict.oracle then 1 else 0)
-               v.Verdict.kf (if v.Verdict.nontrivial then 1 else 0) v.Verdict.cls (Sexp.to_string v.Verdict.model)
+               v.Verdict.kf (if v.Verdict.nontrivial then 1 else 0) v.Verdict.cls (if why = "" then "-" else why) (Sexp.to_string v.Verdict.model)
            | Error e -> Printf.printf "%s %s error=%s\n" suite id (String.map (fun c -> if c = ' ' || c = '\n' then '_' else c) e))
         | _ -> Printf.printf "? ? error=bad_line\n"
       end
